@@ -39,8 +39,10 @@ def coq_files():
     return out
 
 
-def build_coq():
-    """Full .vo build via coq_makefile/make (incremental), serialised by a lock."""
+def build_coq(targets=None):
+    """.vo build via coq_makefile/make (incremental), serialised by a lock.
+    With targets, only those .vo files and their dependency closure are (re)built, so that a
+    half-edited file of another property cannot break this property's check; bin/setup builds all."""
     lock = open(os.path.join(COQ, ".build.lock"), "w")
     fcntl.flock(lock, fcntl.LOCK_EX)
     try:
@@ -52,7 +54,7 @@ def build_coq():
                 or os.path.getmtime(os.path.join(COQ, "Makefile")) < os.path.getmtime(cp)):
             subprocess.run(["coq_makefile", "-f", "_CoqProject", "-o", "Makefile"], cwd=COQ,
                            check=True, stdout=subprocess.DEVNULL, stderr=subprocess.DEVNULL)
-        p = subprocess.run(["timeout", "3000", "make", f"-j{NPROC}"], cwd=COQ,
+        p = subprocess.run(["timeout", "3000", "make", f"-j{NPROC}"] + list(targets or []), cwd=COQ,
                            stdout=subprocess.PIPE, stderr=subprocess.STDOUT, text=True)
         return p.returncode == 0, p.stdout[-6000:]
     finally:
@@ -175,12 +177,17 @@ def evaluate(mod, cases, scratch):
 
 # ------------------------------------------------------------------ known findings
 def load_known(prop):
-    p = os.path.join(VERIF, "known_findings.json")
-    if not os.path.exists(p):
-        return {}
-    data = json.load(open(p))
-    return {f["tag"]: f for f in data.get("findings", [])
-            if f.get("property") == prop and f.get("status") == "open"}
+    out = {}
+    paths = [os.path.join(VERIF, "known_findings.json")]
+    d = os.path.join(VERIF, "known_findings.d")
+    if os.path.isdir(d):
+        paths += [os.path.join(d, f) for f in sorted(os.listdir(d)) if f.endswith(".json")]
+    for p in paths:
+        if os.path.exists(p):
+            for f in json.load(open(p)).get("findings", []):
+                if f.get("property") == prop and f.get("status") == "open":
+                    out[f["tag"]] = f
+    return out
 
 
 def write_replay(prop, payload):
@@ -222,7 +229,8 @@ def check(prop, mod, tier, seed, replay, scratch, t0, lines):
     obligations = []   # (name, discharged?)
     broken = []        # names of proof/correspondence obligations that no longer check
 
-    ok, blog = build_coq()
+    corr = mod.IMPORTS.split()[-1]
+    ok, blog = build_coq([f"props/{prop}.vo", f"theories/{corr}.vo"])
     obligations.append(("coq-build", ok))
     if not ok:
         broken.append("coq build (make): " + blog[-1500:])
